@@ -104,7 +104,14 @@ F_ERR = (
     '<div tal:define="n items[0]"><p>${name}${y()}</p>\n'
     '  <b tal:content="opts[\'a\'][0] / (n - 1)">x</b>'
     '<i tal:attributes="title opts[\'b\'][\'c\'] % (n - 2)">${n}</i></div>')
-FILES = {"err.pt": F_ERR, "i18n.pt": F_I18N, "lib.pt": F_LIB, "page.pt": F_PAGE, "main.pt": F_MAIN,
+# an XML-declared document: the parse mode (no HTML boolean attributes, no
+# entity tables) follows the content type sniffed while reading the file
+F_DOC = (
+    '<?xml version="1.0" encoding="utf-8"?>\n'
+    '<doc><input type="checkbox" checked="${name}" />'
+    '<option tal:attributes="selected opts[\'a\'][0]; disabled None">'
+    '${y()}${name}</option><br/></doc>')
+FILES = {"doc.pt": F_DOC, "err.pt": F_ERR, "i18n.pt": F_I18N, "lib.pt": F_LIB, "page.pt": F_PAGE, "main.pt": F_MAIN,
          "self.pt": F_SELF,
          "x/page.pt": F_XPAGE, "x/part.pt": '<span>part-x ${name}${y()}</span>',
          "y/page.pt": F_XPAGE, "y/part.pt": '<span>part-y ${name}${y()}</span>'}
@@ -118,6 +125,7 @@ FILES_V2 = {
     "main.pt": F_MAIN.replace("<h1>${who}</h1>", "<h2>${who}!</h2>"),
     "page.pt": F_PAGE.replace("<div tal:define=", '<div class="v2" tal:define='),
     "i18n.pt": F_I18N.replace("Hi <b", "Hello again <b"),
+    "doc.pt": F_DOC.replace("<doc>", '<doc class="v2">'),
 }
 USE_CALLER = '<section metal:use-macro="t.macros[\'%s\']"><u metal:fill-slot="s">cs-${name}</u><u metal:fill-slot="x">cx-${name}</u></section>'
 FILES_V3 = {n: b.replace("A2-", "A3-").replace("fx2-", "fx3-")
@@ -197,7 +205,7 @@ class C14(CheckBase):
     def budget(self, tier: str) -> dict:
         b = super().budget(tier)
         if tier != "thorough":
-            b["seconds"] = 70       # schedules are the expensive kind of run
+            b["seconds"] = 100      # schedules are the expensive kind of run
         return b
 
     # -- generation ------------------------------------------------------------
@@ -285,11 +293,12 @@ class C14(CheckBase):
         points only at source lines that touch shared state."""
         via_loader = ch.coin(0.3)
         name = ch.pick(["self.pt", "lib.pt", "page.pt", "main.pt",
-                        "x/page.pt"])
+                        "x/page.pt", "doc.pt", "doc.pt"])
         shared = [{"kind": "loader"}] if via_loader else \
             [{"kind": ch.pick(["file", "cachedfile"]), "name": name}]
         tasks = []
-        for t in range(3):
+        ntasks = 3 if ch.coin(0.6) else 2
+        for t in range(ntasks):
             ops = []
             for _ in range(1 if ch.coin(0.7) else 2):
                 if via_loader:
@@ -310,10 +319,13 @@ class C14(CheckBase):
                 "obs_start": ch.choose(100000) / 100000.0
                 if ch.coin(0.3) else None,
                 "sched": {"kind": "pctacc",
-                          "prios": ch.shuffle([1, 2, 3]),
+                          "prios": ch.shuffle(list(range(1, ntasks + 1))),
                           # (task, position, at a file-system call?)
-                          "fracs": [[ch.choose(3), ch.choose(100000) / 100000.0,
-                                     cached and ch.coin(0.6)]
+                          "fracs": [[ch.choose(ntasks),
+                                     ch.choose(100000) / 100000.0,
+                                     # (blocking I/O is where a thread
+                                     # is most likely to lose the processor)
+                                     ch.coin(0.6 if cached else 0.4)]
                                     for _ in range(d)]}}
 
     def gen_reloadrace(self, ch: Choices, tier: str) -> dict:
@@ -519,7 +531,7 @@ class C14(CheckBase):
             return {"kind": "pctacc",
                     "prios": ch.shuffle(list(range(1, ntasks + 1))),
                     "fracs": [[ch.choose(ntasks),
-                               ch.choose(100000) / 100000.0, ch.coin(0.25)]
+                               ch.choose(100000) / 100000.0, ch.coin(0.35)]
                               for _ in range(d)]}
         d = 1 + ch.choose(3)
         return {"kind": "pct", "prios": ch.shuffle(list(range(1, ntasks + 1))),
